@@ -183,7 +183,7 @@ func collDiff(exp, got collState) (field string, want, have interface{}) {
 	return "", nil, nil
 }
 
-// collGates parks FSM goroutines at the "collision-check-passed" point (server.VerifGate) of armed connections.
+// collGates parks FSM goroutines at named points (server.VerifGate) of armed connections.
 type collGate struct {
 	arrived chan struct{}
 	release chan struct{}
@@ -195,11 +195,12 @@ type collGateSet struct {
 
 var collGates = &collGateSet{m: map[string]*collGate{}}
 
-func (g *collGateSet) arm(remote string) *collGate {
+func (g *collGateSet) arm(remote string) *collGate { return g.armAt("collision-check-passed", remote) }
+func (g *collGateSet) armAt(point, remote string) *collGate {
 	g.mu.Lock()
 	defer g.mu.Unlock()
 	x := &collGate{arrived: make(chan struct{}, 1), release: make(chan struct{})}
-	g.m[remote] = x
+	g.m[point+"|"+remote] = x
 	return x
 }
 func (g *collGateSet) releaseAll() {
@@ -211,11 +212,8 @@ func (g *collGateSet) releaseAll() {
 	}
 }
 func (g *collGateSet) hit(point, remote string) {
-	if point != "collision-check-passed" {
-		return
-	}
 	g.mu.Lock()
-	x := g.m[remote]
+	x := g.m[point+"|"+remote]
 	g.mu.Unlock()
 	if x == nil {
 		return
